@@ -98,6 +98,25 @@ int __wrap_posix_spawn(pid_t *pid, const char *path, const posix_spawn_file_acti
 	spawn_log[k].rfd = last_pipe[0] >= 0 ? dup(last_pipe[0]) : -1;
 	return 0;
 }
+/* waitpid: the daemon leaves the collecting of its children to libev's child watchers.  A child that has exited and whose exit
+ * has not been dispatched yet is lost to its watcher when somebody else collects it: it leaves the pending set for good
+ * (pending = 2: gone, the watcher never fires) and the call is logged. */
+pid_t __wrap_waitpid(pid_t pid, int *st, int opts)
+{
+	(void)opts;
+	for (size_t i = 0; i < npend; i++) {
+		if (pend[i].kind != PK_CHLD) continue;
+		ev_child *c = pend[i].w;
+		if (pid != -1 && pid != c->pid) continue;
+		for (size_t j = i; j + 1 < npend; j++) pend[j] = pend[j + 1];
+		npend--; c->pending = 2;
+		if (st) *st = c->rstatus;
+		fprintf(o, "{\"e\":\"Collected\",\"pid\":%d}\n", c->pid);
+		return c->pid;
+	}
+	errno = ECHILD;
+	return -1;
+}
 static struct passwd pwtab[] = {
 	{ "root", "x", 0, 0, "root", "/root", "/bin/sh" }, { "alice", "x", 1000, 1000, "alice", "/home/alice", "/bin/sh" },
 	{ "bob", "x", 1001, 1001, "bob", "/home/bob", "/bin/bash" }, { "carol", "x", 1002, 1002, "carol", "/home/carol", "/bin/sh" },
